@@ -80,7 +80,8 @@ Definition get_range_location (st : state) (s e : N) : state * option loc * bool
 
 Inductive op :=
 | ReadAt (off size : N)
-| ReadUntil (s e d : N).
+| ReadUntil (s e d : N)
+| ReadInto (off size : N).        (* read_bytes_into: handed straight to the source, which appends `size` bytes to the caller's buffer *)
 
 Fixpoint scache_get (c : list (N * N * loc)) (s d : N) : option loc :=
   match c with
@@ -135,6 +136,10 @@ Definition step (st : state) (o : op) : state * outcome :=
                   end
               end
         end
+  | ReadInto off size =>
+      (* FileContentsWithChunkedCaching::read_bytes_into = self.source.read_bytes_into: nothing is cached; the source refuses ranges
+         that overflow or end beyond the file *)
+      (st, if (two64 <=? off + size) || (flen <? off + size) then Err else Ok off size)
   end.
 
 Fixpoint run (st : state) (ops : list op) : list outcome :=
@@ -157,6 +162,7 @@ Definition spec (o : op) : outcome :=
            | Some len => Ok s len
            | None => Err
            end
+  | ReadInto off size => if (two64 <=? off + size) || (flen <? off + size) then Err else Ok off size
   end.
 
 End ChunkCache.
